@@ -28,6 +28,7 @@ Defs == [ sec |-> <<86400, 3600, 60>>,
           g12 |-> <<12, 4>>,
           g73 |-> <<7, 3>>,
           gcs |-> <<1000000, 1000>>,               \* names that differ only in letter case (mW / MW)
+          gfm |-> <<10000, 100>>,                  \* formatting verbs and escapes in the names of NON-base units (%, %d, \n as text, $1)
           gk  |-> <<1000000, 1000, 10, 2>> ]
 DefIds == DOMAIN Defs
 
